@@ -206,6 +206,11 @@ def gen_case(world, tier, prop):
       return {'op': 'setattr', 'c': c, 'n': n,
               'name': rng.choice(names + ['zz_unknown'] if rng.random() < 0.1 else names),
               'v': value()}
+    if r < 0.56:
+      kw = [[nm, value()] for nm in rng.sample(names, min(len(names), rng.randint(1, 2)))]
+      if rng.random() < 0.6:
+        kw.append(['zz_unknown', 0])      # refused after the valid ones were applied
+      return {'op': 'assign', 'c': c, 'n': n, 'kwargs': kw}
     if r < 0.65:
       return {'op': 'delattr', 'c': c, 'n': n, 'name': rng.choice(names)}
     if r < 0.8:
@@ -483,6 +488,20 @@ def model_apply(S_: Side, op):
         raise Skip()
       m.delitem(real_key(op['key'], m.sv.P))
     return None
+  if k == 'assign':
+    # fdl.assign(node, **kwargs): assignments in keyword order; the first refused
+    # name raises, what was assigned before it stays
+    m = S_.target(op)
+    if m.btype == 'TaggedValueCls':
+      raise Skip()
+    for name, v in op['kwargs']:
+      if 'ref' in C.short(v, 10 ** 9) and any(x is m for x in enum_nodes(S_.value(v))):
+        raise Skip()     # (would create a reference cycle)
+    for name, v in op['kwargs']:
+      if not m.can_setattr(name):
+        return 'raises'
+      m.setattr(name, S_.value(v))
+    return None
   if k == 'update_callable':
     m = S_.target(op)
     if m.btype == 'TaggedValueCls':
@@ -682,6 +701,14 @@ def impl_apply(S_: Side, op):
   if k == 'select_use':
     S_.sels[op['s'] % len(S_.sels)].replace(S_.value(op['v']))
     return None
+  if k == 'assign':
+    from fiddle._src import mutate_buildable
+    # (values are made in keyword order, like the model does, up to the refusal)
+    kw, tgt = {}, S_.target(op)
+    for name, v in op['kwargs']:
+      kw[name] = S_.value(v) if (name != 'zz_unknown') else 0
+    mutate_buildable.assign(tgt, **kw)
+    return None
   if k == 'update_callable':
     from fiddle._src import mutate_buildable
     mutate_buildable.update_callable(S_.target(op), S_.fns[op['fn']],
@@ -846,7 +873,7 @@ def reconcile_kw_order(pre, before_named):
 
 COPY_OPS = ('copy', 'cast', 'copy_with', 'deepcopy', 'pickle', 'json',
             'deepcopy_with', 'diff_tags')
-EDIT_OPS = ('setattr', 'delattr', 'setitem', 'delitem')
+EDIT_OPS = ('setattr', 'delattr', 'setitem', 'delitem', 'assign')
 TAG_OPS = ('add_tag', 'remove_tag', 'set_tags', 'clear_tags')
 # (update_callable only occurs inside diff_tags edits)
 
@@ -981,6 +1008,13 @@ def run(case):
                                    'changed: ' + '; '.join(C.diff(before_i, after_i)), op))
         return res
       continue
+    if k == 'assign' and valid and mret == 'raises':
+      bump(faults, 'rejected_op')
+      if raised is None:
+        res['violations'].append(V(mode, 'invalid-op-accepted',
+                                   f'{desc}: assign with an unknown name did not raise', op))
+        return res
+      raised = None     # the refusal was expected; what it left behind is compared
     if (raised is not None and k in ('deepcopy', 'pickle', 'json', 'deepcopy_with',
                                      'diff_tags')
         and holds_uncopyable(I.root(op))):
